@@ -99,8 +99,8 @@ def check_storage(db, rep, units=None, floors=True):
         rep.fail('E.static', site, where, 'static storage is top-level const (initialised once) or thread_local',
                  'mutable object of type %s shared by all threads' % g.get('t'), fn)
     if floors:
-        rep.floor('E.static', len(globs), 60)
-        rep.floor('E.tls', len(tls_objs), 31)
+        rep.floor('E.static', len(globs), 40)
+        rep.floor('E.tls', len(tls_objs), 12)
     rep.sample('E.static', '%d objects with static/thread storage: %d thread_local, %d const, %d other' %
                (len(globs), len(tls_objs), len(globs) - len(tls_objs) - n_mut, n_mut))
     # thread-exit: thread-local owners of heap blocks must release them
